@@ -6,7 +6,7 @@ emit('C02', '''C02 — Payload travels sealed: confidential, tamper-evident, del
    PARTIAL: "cleartext never appears on the wire" is a statement about the real cipher output; the
    theorem below shows every emitted datagram is a seal of the payload, the byte-level absence of
    the cleartext is checked on the real datagrams by py/props/c02.py.''',
- ['Base','Nonce','NonceProofs','Replay','Core','CoreProofs','Conn','PeerCrypto','SealProofs','Table','Node','NodeProofs','EndToEndProofs'],
+ ['Base','Nonce','NonceProofs','Replay','Core','CoreProofs','Conn','PeerCrypto','SealProofs','Table','Node','NodeProofs','EndToEndProofs','NextHopProofs','SealedWireProofs'],
  [('core_roundtrip','CoreProofs.v','core_roundtrip','what one end seals the other end opens byte-identical (same key under the key id, nonce reconstructible, window admits)'),
   ('nonce_reconstructed','NonceProofs.v','rebuild_after_increment','the nonce premise holds for every counter that fits the 56 transmitted bits, the receiver being the opposite half'),
   ('pc_sealed','SealProofs.v','pc_seal_sealed','unless plain, everything PeerCrypto sends is a datagram produced by the core seal'),
@@ -21,6 +21,7 @@ emit('C02', '''C02 — Payload travels sealed: confidential, tamper-evident, del
   ('truncated','CoreProofs.v','truncated_never_opens','truncated: never opens'),
   ('rejected_silently','SealProofs.v','pc_reject_silent','a datagram that does not open is an ordinary error with no reply'),
   ('rejected_unchanged','CoreProofs.v','decrypt_fail_unchanged','and leaves the crypto core untouched'),
+  ('no_cleartext_ever','SealedWireProofs.v','no_cleartext_ever','NODE, every reachable state: a node whose configuration does not allow the plain algorithm never emits an unencrypted message, never puts its node information (addresses, claims, peer list) into a handshake message unsealed, and never holds an unencrypted connection - for every sequence of events (datagrams of any content from any source, interface reads, housekeeping, dials), at any times, with any handshake salts.  Invariant NE of every node step: each connection and handshake object keeps plain = false; a handshake object that is to answer with a payload already holds the negotiated cipher (IE), because select_algorithm cannot answer plain unless the own configuration allows it'),
  ],
  tail='''
 (* header flips (key id, counter) are covered by C02_open_iff: the key id selects another slot (other
@@ -32,4 +33,10 @@ Example C02_ex_roundtrip :
   snd (core_decrypt b (snd (core_encrypt a [9;9;9]))) = Ok [9;9;9] /\\
   is_ok (snd (core_decrypt a (snd (core_encrypt a [9;9;9])))) = false.
 Proof. vm_compute. split; reflexivity. Qed.
+
+(* the example node of NextHopProofs (plain not allowed) emits a handshake message with a sealed payload: C02_no_cleartext_ever is not vacuous *)
+Example C02_ex_sealed_payload : a_plain (c_algos cB) = false /\\
+  existsb (fun e => match e with XSend _ (WInit m) => match im_payload m with Some (PSealed _) => true | _ => false end | _ => false end)
+          (nrun_fx salts (node_new cB 1) ex_evs) = true.
+Proof. exact ex_sealed_payload. Qed.
 ''')
